@@ -394,6 +394,21 @@ fn role_programs() -> Vec<(String, String)> {
         // the other way round: the binder is function-typed, the callee uses a record parameter of that spelling
         out.push((format!("function-typed binder reuses a record parameter|use binder|argument of the callee|{sn}"), format!("import «?:m»\npub fn «?:user»(k: «?:m».«?:R») {{ {st}use k <- «n:m».«?:give»(k.fld) «f:k»(1) }}{tail}")));
     }
+    // function-typed locals whose annotation is an alias of a function type (declared here, in the
+    // imported module, generic): their uses are function identifiers like any other
+    for (sn, st) in [("plain", ""), ("after a multi-byte string", "\"→ é😀\" ")] {
+        let tail = "\nfn «?:apply1»(f: fn(Int) -> Int) { «f:f»(2) }\nfn «?:num»(n: Int) { n }\n";
+        for (an, ann, decl) in [
+            ("alias declared in the module", "Cb", "type Cb = fn(Int) -> Int\n"),
+            ("alias of the imported module", "«?:m».Handler", ""),
+            ("generic alias of the imported module", "«?:m».Gen(Int)", ""),
+            ("generic alias declared in the module", "Fun(Int)", "type Fun(a) = fn(a) -> a\n"),
+        ] {
+            out.push((format!("function-typed local|parameter annotated with an {an}|called and passed on|{sn}"), format!("import «?:m»\n{decl}pub fn «?:user»(cb: {ann}) {{ {st}«f:cb»(1) + «f:apply1»(«f:cb») }}{tail}")));
+            out.push((format!("function-typed local|lambda parameter annotated with an {an}|called|{sn}"), format!("import «?:m»\n{decl}pub fn «?:user»() {{ {st}let g = fn(cb: {ann}) {{ «f:cb»(1) }} «f:g» }}{tail}")));
+            out.push((format!("function-typed local|let annotated with an {an}|called and passed on|{sn}"), format!("import «?:m»\n{decl}pub fn «?:user»() {{ {st}let cb: {ann} = «f:num» «f:cb»(1) + «f:apply1»(«f:cb») }}{tail}")));
+        }
+    }
     // constructors spelled like the built-in ones (a module may declare them): declared here, or imported unqualified
     for (sn, st) in [("plain", ""), ("after a multi-byte string", "\"→ é😀\" ")] {
         out.push((format!("constructors spelled like built-ins|declared in the module|expression and pattern|{sn}"), format!("pub type Outcome {{ «t:Ok»(Int) «t:False» }}\n/// é😀\npub fn «?:user»() {{ {st}case «t:Ok»(1) {{ «t:Ok»(n) -> «t:False» «t:False» -> «t:Ok»(2) }} }}\n")));
@@ -403,7 +418,7 @@ fn role_programs() -> Vec<(String, String)> {
     out
 }
 
-const ROLE_M: &str = "pub type R { R(fld: Int) }\npub const c = 1\npub fn show(r: R) -> Int { r.fld }\npub fn with(cb: fn(R) -> Int) -> Int { cb(R(1)) }\npub fn with2(f: fn(Int) -> Int, n: Int, cb: fn(R) -> Int) -> Int { cb(R(f(n))) }\npub fn give(n: Int, cb: fn(fn(Int) -> Int) -> Int) -> Int { cb(fn(x) { x + n }) }\npub type Pre { Error(Int) Nil }\npub type Plain { Failed(Int) Empty }\n";
+const ROLE_M: &str = "pub type R { R(fld: Int) }\npub const c = 1\npub fn show(r: R) -> Int { r.fld }\npub fn with(cb: fn(R) -> Int) -> Int { cb(R(1)) }\npub fn with2(f: fn(Int) -> Int, n: Int, cb: fn(R) -> Int) -> Int { cb(R(f(n))) }\npub fn give(n: Int, cb: fn(fn(Int) -> Int) -> Int) -> Int { cb(fn(x) { x + n }) }\npub type Pre { Error(Int) Nil }\npub type Plain { Failed(Int) Empty }\npub type Handler = fn(Int) -> Int\npub type Gen(a) = fn(a) -> a\n";
 
 /// (text, marks (start, end, kind))
 fn strip_marks(tpl: &str) -> (String, Vec<(usize, usize, char)>) {
